@@ -29,6 +29,11 @@ func init() {
 // a race report belongs to C09 if one of the two accesses is in ingest, lookup, activation, expiry or
 // configuration reload code of the station library (statistics printers are not part of the mix)
 func c09RaceFilter(r RaceReport) bool {
+	if r.Has("station/lib.(*Stats).AddStatsModule") {
+		// the driver registers a statistics module per round while the process runs; the station does that once at
+		// start-up, before it serves: not the property's subject
+		return false
+	}
 	return r.Has("station/lib.(*RegistrationManager)", "station/lib.(*RegisteredDecoys)", "station/lib.(*RegConfig)", "station/lib.(*DecoyRegistration)", "pkg/phantoms.")
 }
 
